@@ -30,6 +30,7 @@ def run(s):
         deductive(s, qi, ed, tmp)
         table_structure(s, ed)
         table_loop_rule(s, ed)
+        s.oblige("C17.read_energy.hands_over_as_written(hand-written files)", reader_hands_over_as_written, ["qha_input.read_energy"], kind="finite")
         phonon_round_trip(s, qi, rnd, tmp)
         static_tables(s, ed, rnd, tmp)
         fill_command(s, ed, rnd, tmp)
@@ -898,6 +899,63 @@ def native_table(ed, nv, cols, ending):
             return {"reproduced": True, "input": {"rows": nv, "columns": len(cols), "ending": ending, "text": text[:300]}, "observed": "raises %r" % (e,)}
     finally:
         shutil.rmtree(tmp, ignore_errors=True)
+
+
+def reader_hands_over_as_written():
+    """[F] read_energy on hand-written phonon files (not produced by the package's writer): modes listed in branch order (NOT ascending, crossing between volumes), numbers in
+    fixed and in exponent notation (weights of a dense mesh, energies relative to the minimum), an optional index after nothing -- every number is float(token) at its own place"""
+    qi = importlib.import_module("cij.io.traditional.qha_input")
+    rnd = random.Random(5)
+    tmp = tempfile.mkdtemp(prefix="c17h_")
+    try:
+        n = 0
+        for style in range(4):
+            nv, nq, npm = 3, 3, 6
+            fmt_w = ("%.6f", "%.6e", "%r", "%.10E")[style]
+            fmt_e = ("%.8f", "%.8E", "%r", "%.6e")[style]
+            V = [600.0 - 35.0 * v for v in range(nv)]
+            E = [(-0.05 + 0.013 * v * v) if style else (-150.0 + 0.5 * v) for v in range(nv)]
+            W = [1.0 / 32768, 3.0 / 32768, 0.25] if style else [2.0, 1.0, 0.5]
+            modes = [[[round(100.0 + 37.0 * ((7 * m + 3 * q + 5 * v * (m % 3)) % 11) + 0.01 * (m + 10 * q + 100 * v), 6) for m in range(npm)] for q in range(nq)] for v in range(nv)]
+            for v in range(nv):
+                modes[v][0][:3] = [0.0, 0.0, 0.0]
+            coords = [(0.0, 0.0, 0.0), (0.25, -0.5, 0.125), (-0.375, 0.0, 0.5)]
+            lines = ["hand-written", "", "  nv   nq   np   nm   na", "%4d %4d %4d %4d %4d" % (nv, nq, npm, 1, 2), ""]
+            etok, wtok = [], []
+            for v in range(nv):
+                etok.append(fmt_e % E[v])
+                lines.append("P= %12.6f V= %12.6f E= %s" % (0.0, V[v], etok[-1]))
+                for q in range(nq):
+                    lines.append(" ".join("%10.4f" % c for c in coords[q]))
+                    lines += ["%12.6f" % x for x in modes[v][q]]
+            lines += ["", "weight"]
+            for q in range(nq):
+                wtok.append(fmt_w % W[q])
+                lines.append(" ".join("%10.6f" % c for c in coords[q]) + " " + wtok[-1])
+            p = os.path.join(tmp, "in%d" % style)
+            with open(p, "w") as fp:
+                fp.write("\n".join(lines) + "\n")
+            try:
+                d = qi.read_energy(p)
+            except Exception as e:  # noqa: BLE001
+                return core.refuted("finite", "hand-written phonon file (weights as %s, energies as %s) is not read: %r" % (wtok[0], etok[0], e), witness_id="handwritten-raise:%d" % style,
+                                    replay={"reproduced": True, "file": "\n".join(lines)[:600]})
+            n += 1
+            got_w = [float(w) for _, w in d.weights]
+            if got_w != [float(t) for t in wtok]:
+                return core.refuted("finite", "weights written %s are read as %s" % (wtok, got_w), witness_id="handwritten-weights:%d" % style, replay={"reproduced": True, "weights": wtok})
+            for v in range(nv):
+                vol = d.volumes[v]
+                if float(vol.energy) != float(etok[v]) or float(vol.volume) != V[v]:
+                    return core.refuted("finite", "volume block %d: E written %s read %r, V %r read %r" % (v, etok[v], vol.energy, V[v], vol.volume), witness_id="handwritten-pve:%d" % style,
+                                        replay={"reproduced": True})
+                for q in range(nq):
+                    if [float(x) for x in vol.q_points[q].modes] != modes[v][q]:
+                        return core.refuted("finite", "volume block %d, q-point %d: the modes are not returned in the order they are listed (%s read as %s)" % (
+                            v, q, modes[v][q], [float(x) for x in vol.q_points[q].modes]), witness_id="handwritten-modes", replay={"reproduced": True, "listed": modes[v][q]})
+    finally:
+        shutil.rmtree(tmp, ignore_errors=True)
+    return core.proved("finite", "%d hand-written files (fixed / exponent / repr notation): weights, energies, volumes are float(token); modes in the listed (branch) order" % n)
 
 
 def static_tables(s, ed, rnd, tmp):
